@@ -30,6 +30,13 @@ CHECKS["C06"] = dict(
     ref="2/C06",
 )
 
+CHECKS["C07"] = dict(
+    technique="invariant at a hook + self-consistency monitor: the advertised binding-map keys (B) checked against the abstract template's unreachable positions; setData through the real binding-map path vs fresh creation",
+    text="For generated templates the object B returned by the generated template function is inspected: every advertised field must have no occurrence in a position the map cannot reach (computed from the abstract template per the property text) and no holes; each advertised field is then changed through the real setData in default update mode, the boundary log confirms that the binding-map path (not the tree update) ran, and the snapshot must equal a fresh creation. Held on the templates observed.",
+    note="Trusted: the analysis of unreachable positions (written from the property text), the snapshot, the loader. Helper fields (Ctor, fn) keep their type.",
+    ref="2/C07",
+)
+
 NOT_YET = {}
 
 
